@@ -137,6 +137,60 @@ def invariants(sc):
         sc.validate()
     except Exception as e:
         bad.append('validate(): %s' % e)
+    # derived queries agree with the parent/children relation they are derived from
+    def chain(n):
+        out, p = [], sc.parent_for(n)
+        while p is not None and len(out) <= len(names):
+            out.append(p)
+            p = sc.parent_for(p)
+        return out
+
+    def closure(n):
+        out, todo = set(), [n]
+        while todo:
+            x = todo.pop()
+            for c in sc.children_for(x):
+                if c not in out:
+                    out.add(c)
+                    todo.append(c)
+        return out
+    ordered = sorted(names)
+    for n in ordered:
+        try:
+            anc = list(sc.ancestors_for(n))
+            if anc != chain(n):
+                bad.append('ancestors_for(%r) = %r but the parent chain is %r' % (n, anc, chain(n)))
+            if sc.depth_for(n) != len(chain(n)) + 1:
+                bad.append('depth_for(%r) = %r, parent chain has %d' % (n, sc.depth_for(n),
+                                                                        len(chain(n))))
+            desc = list(sc.descendants_for(n))
+            if set(desc) != closure(n) or len(set(desc)) != len(desc):
+                bad.append('descendants_for(%r) = %r, children closure is %r'
+                           % (n, desc, sorted(closure(n))))
+            frm = sorted(repr([t.source, t.target, t.event, t.action])
+                         for t in sc.transitions_from(n))
+            if frm != sorted(repr([t.source, t.target, t.event, t.action])
+                             for t in sc.transitions if t.source == n):
+                bad.append('transitions_from(%r)' % n)
+            to = sorted(repr([t.source, t.target, t.event, t.action])
+                        for t in sc.transitions_to(n))
+            if to != sorted(repr([t.source, t.target, t.event, t.action])
+                            for t in sc.transitions if t.target == n
+                            or (t.target is None and t.source == n)):
+                bad.append('transitions_to(%r)' % n)
+        except Exception as e:
+            bad.append('derived query on %r raised %s: %s' % (n, type(e).__name__, e))
+    for i in range(0, max(0, len(ordered) - 1), 2):
+        a, b = ordered[i], ordered[-1 - i // 2]
+        try:
+            got = sc.least_common_ancestor(a, b)
+            ca, cb = chain(a), chain(b)
+            want = next((x for x in ca if x in cb), None)
+            if got != want and not (got is None and want == sc.root):
+                bad.append('least_common_ancestor(%r, %r) = %r, parent chains give %r'
+                           % (a, b, got, want))
+        except Exception as e:
+            bad.append('least_common_ancestor raised %s: %s' % (type(e).__name__, e))
     return bad
 
 
@@ -163,6 +217,9 @@ def plan(m, sc, op):
         kind = pick(['basic', 'basic', 'compound', 'orthogonal', 'final', 'shallow', 'deep'], a)
         m.fresh += 1
         new = 'n%d' % m.fresh
+        gone = sorted(getattr(m, 'removed', set()) - set(names))
+        if valid and gone and d % 3 == 0:
+            new = pick(gone, d // 3)      # a name that was removed earlier comes back
         if valid:
             parents = compounds if kind in HISTORY else composites
             if not names:
@@ -214,6 +271,7 @@ def plan(m, sc, op):
         n = pick(names, a)
         def eff():
             gone = m.descendants(n) | {n}
+            m.removed = getattr(m, 'removed', set()) | gone
             for g in gone:
                 del m.states[g]
             m.trs[:] = [t for t in m.trs if t['source'] not in gone and t['target'] not in gone]
